@@ -569,6 +569,10 @@ pub fn suite_serde(ctx: &Ctx, thorough: bool) {
     for_all_token_strings("", 2, &|s| serde_one(ctx, s));
     // SCALE: the same on strings with one component grown across the size thresholds
     for_all_scaled_strings(thorough, &|s| serde_one(ctx, s));
+    // typed PURLs whose name rule has work to do (mixed ASCII / non-ASCII capitals, separator runs, final sigma): the value that
+    // comes back from the data format is the value that went in
+    for s in ["pkg:nuget/ÆA@1.0", "pkg:nuget/AÆ", "pkg:NuGet/SociÉté.Core", "pkg:pypi/A_É", "pkg:pypi/É__a.-b", "pkg:pypi/ΟΔΟΣ", "pkg:nuget/ΟΔΟΣ.Σ", "pkg:nuget/ǅx",
+              "pkg:npm/%40Scope/Name@1?Arch=X", "pkg:maven/G/A@1?checksum=SHA1:AB,md5:00", "pkg:t/n?checksum=ΑΣ:00,b:11"] { serde_one(ctx, s); }
     for v in [json!(null), json!(1), json!(1.5), json!(true), json!([]), json!(["pkg:t/n"]), json!({"purl": "pkg:t/n"}), json!({})] {
         ctx.eval();
         if serde_json::from_value::<GenericPurl<String>>(v.clone()).is_ok() || serde_json::from_value::<Purl>(v.clone()).is_ok() {
@@ -650,6 +654,10 @@ fn serde_one(ctx: &Ctx, s: &str) {
     if let (Ok(a), Ok(b)) = (&a, &b) {
         if a != b || serde_json::to_value(a).ok() != Some(serde_json::Value::String(a.to_string())) {
             ctx.violate("C16.typed", "equal PURL, canonical string", json!(s), format!("{:?}", Obs::of(b)), format!("{:?}", Obs::of(a)));
+        }
+        let back: Option<Purl> = serde_json::to_string(a).ok().and_then(|t| serde_json::from_str(&t).ok());
+        if back.as_ref() != Some(a) {
+            ctx.violate("C16.roundtrip", "survives a JSON round trip unchanged", json!(s), format!("{:?}", back.map(|p| Obs::of(&p))), format!("{:?}", Obs::of(a)));
         }
     }
 }
